@@ -263,7 +263,10 @@ def r3_normaliser_type_branches(ctx):
 
     def find(pred):
         for test, body, node in chain:
-            if test is not None and pred(test):
+            if test is None:
+                continue
+            alts = test.values if isinstance(test, ast.BoolOp) and isinstance(test.op, ast.Or) else [test]
+            if any(pred(a) for a in alts):
                 return body, node
         return None, None
 
